@@ -222,6 +222,9 @@ func buildOverlay(id string, u *Unit, repo string) (map[string]string, error) {
 		if strings.HasPrefix(rd, "$GOROOT") {
 			rd = strings.Replace(rd, "$GOROOT", goroot(), 1)
 		}
+		if strings.HasPrefix(rd, "$VERIF") {
+			rd = strings.Replace(rd, "$VERIF", verifRoot, 1)
+		}
 		ents, err := os.ReadDir(rd)
 		if err != nil {
 			return nil, err
